@@ -150,22 +150,40 @@ def lg(logic):
     return "QF_UF" if logic == "QF_BOOL" else logic
 
 
+def _retry(fn, tries=40, wait=3.0):
+    """other checks running at the same time may rebuild the extracted evaluators (vlib.build_extracted removes the old
+    executable first): a missing executable is retried, never taken for an answer"""
+    import time
+    for k in range(tries):
+        try:
+            return fn()
+        except (FileNotFoundError, PermissionError, OSError):
+            if k == tries - 1:
+                raise
+            time.sleep(wait)
+
+
+def run_aligned(text, **kw):
+    """solvercheck.run_aligned, retried while the binary is being relinked by a concurrent build"""
+    return _retry(lambda: sc.run_aligned(text, **kw))
+
+
 def judge_unsat(sig, logic, decls, A):
     """'agree' | 'refuted-certified' | 'refuted-oracles' | 'undecided'  (+ detail)"""
-    return _memo(_key("u", logic, decls, A), lambda: sc.judge_unsat(sig, lg(logic), decls, A))
+    return _memo(_key("u", logic, decls, A), lambda: _retry(lambda: sc.judge_unsat(sig, lg(logic), decls, A)))
 
 
 def own_model_certifies(sig, logic, decls, A):
     """opensmt's own model of the flat assertion set through the verified evaluator"""
     text = sc.flat_script(decls, lg(logic), [sc.strip_named(a) for a in A], extra_opts=(":produce-models true",)) + "(get-model)\n"
-    rc, out, err = vlib.run_opensmt(text, timeout=10)
+    rc, out, err = _retry(lambda: vlib.run_opensmt(text, timeout=10))
     try:
         sx = read_all(out)
     except ParseError:
         return False
     if len(sx) < 2 or sx[0] != "sat" or not isinstance(sx[1], list):
         return False
-    ev = sc.evaluate(sig, sx[1], [sc.strip_named(a) for a in A])
+    ev = _retry(lambda: sc.evaluate(sig, sx[1], [sc.strip_named(a) for a in A]))
     return "error" not in ev and ev["ok"]
 
 
@@ -173,7 +191,7 @@ def judge_sat(sig, logic, decls, A):
     """'certified' (verified evaluator accepted a model proposed by z3 or by opensmt) | 'unsat-oracles' (z3 and cvc5 say
     unsat) | 'undecided'"""
     def go():
-        v, m = sc.certify_sat_with_oracle_model(sig, lg(logic), decls, A)
+        v, m = _retry(lambda: sc.certify_sat_with_oracle_model(sig, lg(logic), decls, A))
         if v == "certified":
             return "certified", "z3-model"
         if v == "oracle-unsat":
@@ -199,12 +217,82 @@ def equivalent(logic, decls, a, b):
     return _memo(("eq", logic, tuple(decls), sx_str(sc.strip_named(a)), sx_str(sc.strip_named(b))), go)
 
 
+def all_equivalent(logic, decls, pairs):
+    """untrusted: z3 says every pair is equivalent (one query)"""
+    pairs = [(sc.strip_named(a), sc.strip_named(b)) for a, b in pairs]
+    pairs = [(a, b) for a, b in pairs if sx_str(a) != sx_str(b)]
+    if not pairs:
+        return True
+    def go():
+        f = ["or"] + [["distinct", a, b] for a, b in pairs] if len(pairs) > 1 else ["distinct", pairs[0][0], pairs[0][1]]
+        ans, _ = sc.ref_answer("z3", lg(logic), decls, [f])
+        return ans == "unsat"
+    return _memo(("eqs", logic, tuple(decls), sx_str([list(p) for p in pairs])), go)
+
+
 def symbols_known(t, sig):
     try:
         Elab(sig).elab(t, {}, "B")
         return True
     except (ParseError, Exception):
         return False
+
+
+AUX = re.compile(r"^\.ite[0-9]+_[0-9]+$")
+
+
+def with_aux_symbols(terms, sig, decls):
+    """opensmt replaces non-Boolean ite terms of an assertion by fresh constants `.ite<N>_<k>` (IteHandler); formulas printed
+    by the solver may contain them.  Returns (sig', decls') with these constants declared at the sort that makes every
+    term well-sorted, or None."""
+    import copy
+    aux = set()
+    def walk(t):
+        if isinstance(t, list):
+            for x in t:
+                walk(x)
+        elif AUX.match(t):
+            aux.add(t)
+    for t in terms:
+        walk(t)
+    if not aux:
+        return sig, list(decls)
+    sig2 = copy.deepcopy(sig)
+    cands = [("I", "Int"), ("R", "Real")] + [(("U", i), n) for n, i in sig.usorts.items()]
+    ns = sig.num_sort()
+    if ns:
+        cands = [c for c in cands if c[0] == ns or isinstance(c[0], tuple)]
+    decl2 = list(decls)
+    for a in sorted(aux):
+        done = False
+        for srt, name in cands:
+            sig2.funs[a] = ((), srt)
+            sig2.id_of(a)
+            ok = True
+            for t in terms:
+                if a in sx_str(t).replace("(", " ").replace(")", " ").split():
+                    probe = copy.copy(sig2)
+                    probe.funs = dict(sig2.funs)
+                    for b in aux:
+                        if b not in probe.funs:
+                            probe.funs[b] = ((), srt)      # provisional: same sort
+                    try:
+                        Elab(probe).elab(t, {}, "B")
+                    except (ParseError, Exception):
+                        ok = False
+                        break
+            if ok:
+                decl2.append("(declare-fun %s () %s)" % (a, name))
+                done = True
+                break
+        if not done:
+            return None
+    try:
+        for t in terms:
+            Elab(sig2).elab(t, {}, "B")
+    except (ParseError, Exception):
+        return None
+    return sig2, decl2
 
 
 # ---------------------------------------------------------------------------------------------
@@ -266,7 +354,7 @@ def hook_present():
         os.makedirs(os.path.dirname(t), exist_ok=True)
         text = ("(set-option :produce-unsat-cores true)(set-option :minimal-unsat-cores true)(set-logic QF_UF)(declare-fun a () Bool)"
                 "(assert (! a :named n))(assert (! (not a) :named m))(check-sat)(get-unsat-core)\n")
-        sc.run_aligned(text, timeout=10, trace=t)
+        run_aligned(text, timeout=10, trace=t)
         txt = open(t).read() if os.path.exists(t) else ""
         if os.path.exists(t):
             os.remove(t)
@@ -290,7 +378,7 @@ def core_exe():
 
 
 def driver(lines):
-    rc, out = vlib.sh([core_exe()], input="\n".join(lines) + "\n", timeout=120)
+    rc, out = _retry(lambda: vlib.sh([core_exe()], input="\n".join(lines) + "\n", timeout=120))
     res = out.strip().split("\n") if out.strip() else []
     if rc != 0 or len(res) != len(lines):
         raise RuntimeError("core driver: rc=%s, %d answers for %d requests: %s" % (rc, len(res), len(lines), out[-300:]))
